@@ -290,6 +290,10 @@ def apply(it, fn, args, dest_ty, term, caller, depth):
         r = vec_model(it, name, fn, args, dest_ty)
         if r is not NotImplemented:
             return r
+    if name == "extend" and fn.get("trait", "").endswith("Extend") and len(args) == 2 and isinstance(args[0], Ref):
+        r = vec_model(it, name, fn, args, dest_ty)
+        if r is not NotImplemented:
+            return r
     if path == "core::vec::from_elem":
         n = args[1]
         if isinstance(n, Int) and n.is_conc():
@@ -426,6 +430,11 @@ def vec_model(it, name, fn, args, dest_ty):
     if name == "push":
         it.write(r.cell, r.path, VecV(v.elems + (args[1],)))
         return Tup([])
+    if name == "extend" and len(args) == 2:
+        src = args[1]
+        if isinstance(src, (VecV, Arr)):
+            it.write(r.cell, r.path, VecV(v.elems + tuple(src.elems)))
+            return Tup([])
     if name == "len":
         return Int(64, False, val=len(v.elems))
     if name == "is_empty":
@@ -662,6 +671,24 @@ def iter_model(it, fn, name, args, dest_ty, term, caller, depth):
                     break
                 out.append(item.fields[0])
             return VecV(out)
+        if name in ("all", "any") and len(args) == 2 and isinstance(args[0], Ref) and isinstance(it.read(args[0].cell, args[0].path), IterV):
+            cur = it.read(args[0].cell, args[0].path)
+            res = (name == "all")
+            for _ in range(100000):
+                cur, item = iter_next(it, cur, term, caller, depth)
+                if item.variant == 0:
+                    break
+                r = call_callable(it, args[1], [item.fields[0]], term, caller, depth)
+                if not (isinstance(r, Int) and r.is_conc()):
+                    raise Undecided("%s() predicate returned %r" % (name, r))
+                if name == "all" and not r.val:
+                    res = False
+                    break
+                if name == "any" and r.val:
+                    res = True
+                    break
+            it.write(args[0].cell, args[0].path, cur)
+            return mkbool(res)
         if name == "sum" and args and isinstance(args[0], IterV):
             cur = args[0]
             acc = None
